@@ -32,10 +32,15 @@ def run(ctx):
         allp = allp[:28]
     pairs += allp
     ops = ["pair %s %s %s %s" % (fx, a, b, s) for fx, a, b in pairs for s in SCHEDULES]
+    n_pair = len(ops)
+    totp_rounds = 6 if ctx.quick() else 40
+    ops += ["totp2 %d" % rng.choice([2, 4, 8]) for _ in range(totp_rounds)]
     impl, log, rc = c.run_harness(ctx, "cmd/keymasterd", "C16", ops, timeout=1500)
     if rc != 0 or len(impl) != len(ops):
         ctx.broken.append("harness TestVerifC16 did not complete (exit %d, %d/%d lines)" % (rc, len(impl), len(ops)))
         return c.finish(ctx)
+    totp_ops, totp_impl = ops[n_pair:], impl[n_pair:]
+    ops, impl = ops[:n_pair], impl[:n_pair]
     model = c.run_driver(ctx, "model", ops)
     strip = lambda a: a.split(" trace=")[0]
     c.diff_streams(ctx, "profile handlers under forced load/save schedules vs KM.Conc.run", ops, [strip(a) for a in impl], model)
@@ -56,6 +61,13 @@ def run(ctx):
                 hist[key] += 1
                 c.add_violation(ctx, key, "requests %s and %s on one user under schedule %s give %r; sequential orders give %r" % (
                     a, b, s, outs[s], sorted(seq)), {"op": ops[i * 6 + SCHEDULES.index(s)], "impl": outs[s], "sequential": sorted(seq)})
+    for o, a in zip(totp_ops, totp_impl):
+        f = a.split()
+        hist["totp-simultaneous:accepted=" + f[0]] += 1
+        if not f[0].isdigit() or int(f[0]) > 1:
+            c.add_violation(ctx, "double-spend:TOTPAuth|TOTPAuth",
+                            "the same one-time code presented by %s simultaneous requests was honoured %s times" % (f[1] if len(f) > 1 else "?", f[0]),
+                            {"op": o, "impl": a})
     if ctx.tier == "thorough":
         sl, slog, src = c.run_harness(ctx, "cmd/keymasterd", "C16Stress", ["stress 40"] * 3, timeout=1500, race=True, tag="s")
         hist["race_detector_runs"] = len(sl)
